@@ -477,10 +477,12 @@ func runConfig(c config, probes []probe, id *ids) *cfgResult {
 	}
 	fmt.Fprintf(os.Stderr, "PROBE (after the probes)\n")
 
-	// GetEndpoints through a channel with the first enabled pair
-	// (a server that enabled nothing accepts no channel: nothing to ask)
-	if len(res.Enabled) > 0 && waitIdle(inst) {
-		first := res.Enabled[0]
+	// GetEndpoints through a channel with the first enabled pair (None/None when nothing is enabled)
+	if waitIdle(inst) {
+		first := pair{"None", 1}
+		if len(res.Enabled) > 0 {
+			first = res.Enabled[0]
+		}
 		ctx, cancel := context.WithTimeout(context.Background(), 10*time.Second)
 		ch, err := srvx.OpenStd(ctx, inst.URL, uriOf(first.P), ua.MessageSecurityMode(first.M), id.cl, id.srv.CertDER, 5*time.Second)
 		if err != nil {
@@ -852,10 +854,6 @@ func main() {
 			}
 		}
 		for _, c := range buildConfigs(o, rnd) {
-			if len(c.Intent) == 0 {
-				// server.New without any (supported) EnableSecurity option offers None / None
-				c.Intent = []pair{{"None", 1}}
-			}
 			cfgs = append(cfgs, c)
 			probeSets = append(probeSets, probesFor(rnd, o.Thorough()))
 		}
@@ -880,7 +878,8 @@ func main() {
 		evaluate(r, d, res)
 	}
 
-	for _, b := range []string{"class:enabled", "class:rejected", "std:accept", "std:reject", "raw:accept", "raw:reject",
+	for _, b := range []string{"class:enabled", "class:rejected", "class:C30.accept-none-not-enabled", "class:C30.accept-secure-policy-mode-none",
+		"class:C30.accept-invalid-mode", "class:C30.accept-mode-not-enabled", "class:C30.accept-policy-not-enabled", "std:accept", "raw:accept", "raw:reject",
 		"endpoints", "getendpoints"} {
 		if r.Distribution[b] == 0 && o.Replay == "" {
 			r.Unreached = append(r.Unreached, b)
